@@ -546,6 +546,13 @@ pub open spec fn msr(st: DecState) -> nat {
     st.rest.len() + (if st.buf is Some { 1nat } else { 0nat })
 }
 
+/// C05: "a length announced in a CBOR head is never trusted for allocation".  Every allocation
+/// whose size is a run-time value must request at most 64 KiB-equivalent elements; the bound is a
+/// constant of the SPEC (raising the crate's own MAX_PREALLOC beyond it fails the obligation).
+pub open spec fn alloc_ok(n: int) -> bool { n <= 65536 }
+pub open spec fn alloc_min(a: int, b: int) -> int { if a <= b { a } else { b } }
+pub open spec fn alloc_max(a: int, b: int) -> int { if a >= b { a } else { b } }
+
 /// Result of a decoder function against the spec parse of its input.
 pub open spec fn dec_ok(r: Result<Value, DecodeError>, sp: Option<(Item, nat)>, st0: DecState, st1: DecState) -> bool {
     match sp {
